@@ -257,6 +257,12 @@ class Hooks:
     def after(self, real, op, pre, err, w):
         ctx, t = self.ctx, op["t"]
         cs = self.cs(op)
+        if getattr(real, "unconstrained", None):
+            # audit 3 (B5): the saver wrote, but under the working directory of the moment - where it writes after a chdir is not in the
+            # property text: recorded, no verdict, and the history ends here (storeops.Real.apply, saverSave)
+            ctx.info("saverSave/relative-folder-denotes-the-directory-at-construction", False, True)
+            self.cut = True
+            return
         if real.uds:
             bad = real.changed_uds()
             ctx.oracle("no operation changes a unitary dictionary the caller owns (keys and tensor bytes)", not bad, cs,
